@@ -61,8 +61,6 @@ theorem orientP_raises_iff (s : PBits) (hg : GoodP s = true) :
   rcases s with ⟨a, b, c, d, e, f⟩
   revert a b c d e f; decide
 
-instance (s s' : PBits) : Decidable (OrientOnlyP s s') := by unfold OrientOnlyP; infer_instance
-instance (s s' : CBits) : Decidable (OrientOnlyC s s') := by unfold OrientOnlyC; infer_instance
 
 /-- a successful orientation changes exactly the one mark it was asked to orient -/
 theorem orientP_only (s : PBits) (hg : GoodP s = true) (ha : (orientP s).2 = false) :
